@@ -191,6 +191,27 @@ def check(ctx):
             m2 = [rng.randrange(1, 256) for _ in range(rng.randrange(0, 4))] + [0] + [7] * (N + 2) + m    # dest string with room, then the source arena
             d_off = 0; s_off = len(m2) - N + a
             lines.append("Str strncat %s %d %d %d %d" % (fmt(m2), d_off, s_off, huge, rng.randrange(8)))
+    # objects of more than 4 GiB (lazily committed, zero-filled, a few marked bytes): moves and fills whose counts, distances and
+    # pointer differences do not fit 31 / 32 bits - downward and upward overlapping moves of 2 GiB + 8 KiB, a copy of 2 GiB + 12, a fill of 4 GiB + 7
+    G31, G32 = 2 ** 31, 2 ** 32
+    def membig(fn, span, d, s_, n, c, offs):
+        marks, probes, b = [], [], 1
+        for o in offs:
+            if fn != "memset": marks.append("%d:%d" % (s_ + o, b)); b = b % 250 + 1
+            probes += [d + o] + ([s_ + o] if fn != "memset" else [])
+        marks.append("%d:%d" % (d + 5 if fn != "memset" else d + 5, 251))                      # overwritten by the operation
+        for q in ([d - 1] if d > 0 else []) + [d + n]:                                           # just outside: must keep their bytes
+            if 0 <= q < span: marks.append("%d:%d" % (q, 252)); probes.append(q)
+        probes += [d + 5]
+        return "MemBig %s %d %d %d %d %d %s %s" % (fn, span, d, s_, n, c, ",".join(marks), ",".join(str(x) for x in probes))
+    big = ["R"]
+    n1 = G31 + 8192; e1 = G31 + 4096
+    offs = [0, 1, 4095, 4096, 2 ** 30, n1 - e1 - 1, n1 - e1, n1 - 2, n1 - 1]
+    big.append(membig("memmove", G32 + 12288, 0, e1, n1, 0, offs))                # downward, overlapping, distance + count > 2^32
+    big.append(membig("memmove", G32 + 12288, e1, 0, n1, 0, offs))                # upward, overlapping
+    if ctx.thorough:
+        big.append(membig("memcpy", G32 + 8192, G31 + 4096, 0, G31 + 12, 0, [0, 1, 4096, 2 ** 30, G31, G31 + 11]))
+        big.append(membig("memset", G32 + 12288, 3, 0, G32 + 7, 0xAB, [0, 1, 4096, G31 - 1, G31, G32 - 1, G32, G32 + 6]))
     # long aligned / misaligned block copies and moves with every relative alignment
     for fn in ("memcpy", "memmove", "memset", "memcmp"):
         for da in range(8):
@@ -208,7 +229,8 @@ def check(ctx):
         script.append(ln)
     ctx.samples.append({"calls": [script[1], script[-1]]})
     t = ctx.drive(drv, script, "cstring")
-    bad = ctx.judge("CStringTrace", [t], shards=16)
+    tb = ctx.drive(drv, big, "cstring_big", timeout=1500, par=1)
+    bad = ctx.judge("CStringTrace", [t, tb], shards=16)
     for b in bad: b["driver"] = "drv_cstring"
     ctx.report(bad)
     ctx.assumptions += [
@@ -225,6 +247,10 @@ def replay(ctx, path):
     e = d["event"]
     if e.get("e") == "Fault":
         return core.replay_fault(ctx, d, drv, "CStringTrace", path)
+    if e.get("e") == "MemBig":
+        t = ctx.drive(drv, ["R", "MemBig %s %s" % (e["fn"], e["args"])], "replay", timeout=1500)
+        ctx.report(ctx.judge("CStringTrace", [t]))
+        return ctx.finish(rule="replay of " + path)
     t = ctx.drive(drv, ["R", "Str %s %s %d %d %s %d" % (e["fn"], fmt(e["mem"]), e["a"], e["b"], e.get("ns") or e["n"], e["pad"])], "replay")
     ctx.report(ctx.judge("CStringTrace", [t]))
     return ctx.finish(rule="replay of " + path)
